@@ -329,7 +329,7 @@ async def open_child_case(case: dict[str, Any], sc: Scenario) -> None:
 
     async def child_task(parent: Any) -> None:
         try:
-            async with (Context(parent) if case["explicit_parent"] else Context()) as child:
+            async with (Context(parent) if case["explicit_parent"] else Context()) as child:  # (parent: a context, or what a component saw as its context)
                 if case.get("child_phase") == "teardown":
                     # the child's block is over at once, but its teardown takes its time: it is not closed before that is done
                     async def slow_teardown() -> None:
@@ -361,7 +361,20 @@ async def open_child_case(case: dict[str, Any], sc: Scenario) -> None:
                         release.set()
                         await anyio.sleep(1)
                     return
-                tg.start_soon(child_task, parent)
+                given = parent
+                if case["explicit_parent"] == "component":
+                    # the child is given, as its explicit parent, the object a component of this context saw as current context
+                    from asphalt.core import Component, current_context, start_component
+
+                    seen: list[Any] = []
+
+                    class Keeper(Component):
+                        async def start(self) -> None:
+                            seen.append(current_context())
+
+                    await start_component(Keeper, timeout=None)
+                    given = seen[0]
+                tg.start_soon(child_task, given)
                 await child_open.wait()
         except BaseException as e:
             outcome["parent"] = e
@@ -460,7 +473,9 @@ def matrix_cells() -> list[dict[str, Any]]:
         if state != "inactive" and op not in ("reenter", "closed"):
             cells.append({"kind": "cell", "state": state, "op": op, "nested": nested, "backend": backend, "ending": ending,
                           "ops": {slot: [op]}, "via": "component"})
-    for nested, explicit, backend, falsy, phase in itertools.product([False, True], [False, True], ["asyncio", "trio"], [False, True], ["block", "teardown"]):
+    for nested, explicit, backend, falsy, phase in itertools.product([False, True], [False, True, "component"], ["asyncio", "trio"], [False, True], ["block", "teardown"]):
+        if explicit == "component" and nested:
+            continue
         cells.append({"kind": "open_child", "nested": nested, "explicit_parent": explicit, "backend": backend, "falsy_contexts": falsy, "child_phase": phase})
     for siblings, explicit, early, backend in itertools.product([2, 3], [False, True], [False, True], ["asyncio", "trio"]):
         cells.append({"kind": "equal_siblings", "siblings": siblings, "explicit_parent": explicit, "leave_parent_early": early, "backend": backend})
